@@ -19,6 +19,7 @@ type minimiser struct {
 	runs     int
 	maxRuns  int
 	deadline time.Time
+	out      string
 }
 
 func (m *minimiser) exhausted() bool { return m.runs >= m.maxRuns || time.Now().After(m.deadline) }
@@ -48,8 +49,23 @@ func (m *minimiser) try(cand *Scenario) bool {
 	if ok {
 		m.best = cand
 		m.msg = msg
+		m.checkpoint()
 	}
 	return ok
+}
+
+// checkpoint writes the best scenario so far: a candidate that takes forever (an emptied
+// program can turn into a gas-bounded loop over an enormous gas limit) gets this process
+// killed by the driver, which then uses what was saved.
+func (m *minimiser) checkpoint() {
+	if m.out == "" {
+		return
+	}
+	rp := Replay{Property: m.c.ID, Rule: m.rule, Sig: m.sig, Scenario: m.best, Message: fmt.Sprintf("%s [minimised in %d runs]", m.msg, m.runs)}
+	if b, err := json.Marshal(&rp); err == nil {
+		os.WriteFile(m.out+".tmp", b, 0o644)
+		os.Rename(m.out+".tmp", m.out)
+	}
 }
 
 func macroLists(sc *Scenario) []*[]Macro {
@@ -322,7 +338,7 @@ func minimiseMain(in, out string) int {
 	}
 	c := checks[rp.Property]
 	m := &minimiser{c: c, rule: rp.Rule, sig: rp.Sig, best: rp.Scenario, msg: rp.Message,
-		maxRuns: envInt("VERIF_MIN_RUNS", 2000), deadline: time.Now().Add(time.Duration(envInt("VERIF_MIN_SECONDS", 60)) * time.Second)}
+		maxRuns: envInt("VERIF_MIN_RUNS", 2000), deadline: time.Now().Add(time.Duration(envInt("VERIF_MIN_SECONDS", 60)) * time.Second), out: out}
 	// confirm first
 	if !m.try(rp.Scenario.Clone()) {
 		rp.Message = "(did not reproduce on confirmation run) " + rp.Message
